@@ -403,7 +403,7 @@ func c20Show(fr []c20Frame) string {
 }
 
 func runC20(c *Ctx) error {
-	c.Rep.Rule = "backtrace: programs built from a random call tree of depth 1..7 (up to ~25 functions and methods emitted in random order, completed calls before the fault, recursion of depth 1..30), faults with the operator and its last operand on different lines, calls as statement / in an expression / in if, else, for, range and switch bodies / through a function value / as an argument of another call / with arguments over several lines, one fault among 12 kinds (index, negative index, slice bounds, string index, integer division and modulo by zero, explicit panic, nil struct field read and write, nil method receiver, nil function value, nil map write) planted at a known line, 5% without fault; each run with the optimizer off and on; distinct = distinct program; non-trivial = chain of at least 3 frames"
+	c.Rep.Rule = "backtrace: programs built from a random call tree of depth 1..7 (up to ~25 functions and methods emitted in random order, completed calls before the fault, recursion of depth 1..30), faults with the operator and its last operand on different lines, calls as statement / in an expression / in if, else, for, range and switch bodies / through a function value / as an argument of another call / with arguments over several lines, one fault among 12 kinds (index, negative index, slice bounds, string index, integer division and modulo by zero, explicit panic, nil struct field read and write, nil method receiver, nil function value, nil map write) planted at a known line, 5% without fault; recursions of depth 1..30 whose failing operation is the recursive call itself (nil function value, nil receiver at the end of a list); each run with the optimizer off and on; distinct = distinct program; non-trivial = chain of at least 3 frames"
 	n := 120
 	if c.Thorough() {
 		n = 60000
@@ -474,7 +474,63 @@ func runC20(c *Ctx) error {
 			}
 		}
 	}
+	c.c20RecursiveFault()
 	return c.c20PosLimits()
+}
+
+// c20RecursiveFault: the operation that finally fails IS the recursive call (a nil function value / a nil
+// receiver at the bottom of the recursion), so the failing position equals the position of every active call site:
+// one line per active call must still be reported
+func (c *Ctx) c20RecursiveFault() {
+	depths := []int{1, 2, 3, 5, 9}
+	if c.Thorough() {
+		depths = append(depths, 14, 20, 30)
+	}
+	for _, d := range depths {
+		progs := []struct {
+			src  string
+			want []c20Frame
+		}{}
+		// a function variable that becomes nil at the bottom
+		fv := fmt.Sprintf("var h func(int) int\n\nfunc f(n int) int {\n\tif n == 0 {\n\t\th = nil\n\t}\n\treturn h(n - 1)\n}\n\nfunc start() int {\n\th = f\n\treturn f(%d)\n}\n\nstart()\n", d)
+		var w []c20Frame
+		for i := 0; i <= d; i++ {
+			w = append(w, c20Frame{"f", 7})
+		}
+		w = append(w, c20Frame{"start", 12}, c20Frame{"", 15})
+		progs = append(progs, struct {
+			src  string
+			want []c20Frame
+		}{fv, w})
+		// a method called on the nil pointer that ends a linked list
+		ls := fmt.Sprintf("type Node struct {\n\tval int\n\tnext *Node\n}\n\nfunc (n *Node) sum() int {\n\tm := n.next\n\treturn n.val + m.sum()\n}\n\nfunc build(k int) *Node {\n\tvar head *Node\n\tfor i := 0; i < k; i++ {\n\t\thead = &Node{val: i, next: head}\n\t}\n\treturn head\n}\n\nfunc run() int {\n\tl := build(%d)\n\treturn l.sum()\n}\n\nrun()\n", d)
+		var w2 []c20Frame
+		for i := 0; i < d; i++ {
+			w2 = append(w2, c20Frame{"Node.sum", 8})
+		}
+		w2 = append(w2, c20Frame{"run", 21}, c20Frame{"", 24})
+		progs = append(progs, struct {
+			src  string
+			want []c20Frame
+		}{ls, w2})
+		for _, p := range progs {
+			for _, opt := range []bool{false, true} {
+				var err error
+				if e := try(func() { _, err = goat.New().VerifEval(p.src, opt) }); e != nil {
+					err = fmt.Errorf("PANIC escaped: %v", e)
+				}
+				got := "unparsed: " + fmt.Sprint(err)
+				if fr, ok := c20Parse(err); ok {
+					got = c20Show(fr)
+				}
+				c.Rep.Oracle["recursive-call-fault"]++
+				c.Rep.Count("recursive-call-fault")
+				if got != c20Show(p.want) {
+					c.Rep.Violate(Violation{Kind: "oracle", Cut: "recursive-call-fault", Input: fmt.Sprintf("optimize=%v\n%s", opt, p.src), Impl: got, Oracle: c20Show(p.want)})
+				}
+			}
+		}
+	}
 }
 
 // c20PosLimits: the position word against the model (Goat.Backtrace.newPos / posInfo): faults planted beyond
